@@ -252,7 +252,7 @@ fn warm_up_once() {
 
 /// What the watchdog (`watchdog.rs`) can see of the run an OS thread is executing right now.
 pub struct WatchSlot {
-    pub case: Case,
+    pub case: Arc<Case>,
     pub out: Shared,
     pub progress: Arc<std::sync::atomic::AtomicU64>,
     pub last_value: u64,
@@ -280,10 +280,11 @@ where
 {
     warm_up_once();
     let shared: Shared = Arc::new(Mutex::new(RunOutput::default()));
+    let case_arc = Arc::new(case.clone());
     {
         let progress = rt::progress_handle();
         let v = progress.load(std::sync::atomic::Ordering::Relaxed);
-        watch_table().lock().unwrap().insert(std::thread::current().id(), WatchSlot { case: case.clone(), out: Arc::clone(&shared), progress, last_value: v, last_change: std::time::Instant::now() });
+        watch_table().lock().unwrap().insert(std::thread::current().id(), WatchSlot { case: Arc::clone(&case_arc), out: Arc::clone(&shared), progress, last_value: v, last_change: std::time::Instant::now() });
     }
     let _watch_guard = WatchGuard;
     let replay = match (&case.sched.strategy, &case.schedule) {
@@ -300,7 +301,6 @@ where
 
     rt::install(rt::RunCtx::default());
     let runner = shuttle::Runner::new(scheduler, cfg);
-    let case_arc = Arc::new(case.clone());
     let shared2 = Arc::clone(&shared);
     let body = Arc::new(body);
     let result = catch_unwind(AssertUnwindSafe(move || {
